@@ -970,6 +970,10 @@ def deque_method(I, d, name, args, kwargs):
     if name in ("pop", "popleft"):
         if not d:
             I.raise_("IndexError", "pop from an empty deque")
+        floor = I.w.ghost.get("$floors", {}).get(id(d))
+        if floor is not None and (len(d) <= floor or name == "popleft"):
+            # a cut invariant declared the entries below `floor` dead; reading one of them invalidates the closure
+            raise EngineError("cut invariant violated: an entry declared dead at the last cut point is popped")
         return getattr(d, name)()
     if name in ("extend", "extendleft"):
         getattr(d, name)(I.run(I.iterate(args[0])))
